@@ -440,9 +440,9 @@ class MemOrchestrator(BaseOrchestrator):
         :param invocation_id: The invocation to get the lock for.
         :return: A threading Lock for the given invocation.
         """
-        if invocation_id not in self.locks:
-            self.locks[invocation_id] = threading.Lock()
-        return self.locks[invocation_id]
+        # setdefault is a single atomic dict operation: two threads asking for the
+        # lock of the same invocation at the same time always get the same object
+        return self.locks.setdefault(invocation_id, threading.Lock())
 
     def _atomic_status_transition(
         self,
